@@ -66,7 +66,7 @@ func one(w *bufio.Writer, seed uint64, n int, all bool, quota int, long bool, on
 		fmt.Fprintf(w, "X %d harness-error generate: %v\n", n, err)
 		return
 	}
-	twin, err := cfsim.RunTwin(s, false)
+	twin, err := cfsim.RunTwin(s, false, false)
 	if err != nil {
 		fmt.Fprintf(w, "X %d harness-error %v\n", n, err)
 		return
@@ -80,8 +80,14 @@ func one(w *bufio.Writer, seed uint64, n int, all bool, quota int, long bool, on
 	st.removes += s.Stats.Removes
 	st.creates += s.Stats.Creates
 	st.newaddr += s.Stats.NewAddr
-	fmt.Fprintf(w, "S %d ops=%d commits=%d blocks=%d reorgs=%d creates=%d newaddr=%d imports=%d removes=%d long=%d\n",
-		n, len(s.Ops), twin.Commits, s.Stats.Blocks, s.Stats.Reorgs, s.Stats.Creates, s.Stats.NewAddr, s.Stats.Imports, s.Stats.Removes, opt.Long)
+	foreign := 0
+	for _, ws := range s.Wallets {
+		if ws.Foreign {
+			foreign = ws.Num
+		}
+	}
+	fmt.Fprintf(w, "S %d ops=%d commits=%d blocks=%d reorgs=%d creates=%d newaddr=%d imports=%d removes=%d long=%d foreign=%d\n",
+		n, len(s.Ops), twin.Commits, s.Stats.Blocks, s.Stats.Reorgs, s.Stats.Creates, s.Stats.NewAddr, s.Stats.Imports, s.Stats.Removes, opt.Long, foreign)
 	emitModel(w, fmt.Sprintf("%d:twin", n), twin.Lines)
 
 	r := rng.New(seed*977 + uint64(n)*13 + 5)
@@ -143,6 +149,15 @@ func one(w *bufio.Writer, seed uint64, n int, all bool, quota int, long bool, on
 				}
 			}
 		}
+		if opt.LongNoWallet {
+			// restart more than 2000 blocks behind with no wallet at all: Start fast-forwards;
+			// crash again in the middle of the fast-forward and of the catch-up
+			plans = append(plans, plan{[]int{1}, 100000, true}, plan{[]int{2}, 100000, false}, plan{[]int{3, 25}, 100000, true},
+				plan{[]int{2, 70, 10}, 100000, true})
+			if len(ks) > 3 {
+				ks = ks[:3]
+			}
+		}
 		for _, k := range ks {
 			m := r.Intn(4)
 			if opt.LongNoWallet {
@@ -193,7 +208,7 @@ func one(w *bufio.Writer, seed uint64, n int, all bool, quota int, long bool, on
 			verdict = "VIOL " + res.Viol.Key + " " + strings.Replace(res.Viol.What, "\n", " ", -1)
 		}
 		fmt.Fprintf(w, "R %d %s ks=%s moveon=%d crashes=%s caughtup=%d %s\n", n, id, ksS, p.moveOn, strings.Join(ctxs, ","), cu, verdict)
-		if len(res.Crashes) > 0 && res.Viol == nil {
+		if len(res.Crashes) > 0 && (res.Viol == nil || res.Viol.Key == "addressbook-row-lost-by-rollback") {
 			emitModel(w, id, res.Lines)
 		}
 	}
